@@ -217,9 +217,20 @@ func vNeighbor(n byte, peerAS, localAS uint32, families []bgp.Family) *oc.Neighb
 	return c
 }
 
+// vRibFor: the table manager addNeighbor gives a peer (route-server clients share their own).
+func vRibFor(s *BgpServer, c *oc.Neighbor) *table.TableManager {
+	if c.RouteServer.Config.RouteServerClient {
+		return s.rsRib
+	}
+	return s.globalRib
+}
+
 // vEstablished adds the neighbour to the server as an established session.
 func vEstablished(s *BgpServer, c *oc.Neighbor, families []bgp.Family) *peer {
-	p := newPeer(&s.bgpConfig.Global, c, bgp.BGP_FSM_ESTABLISHED, s.globalRib, s.policy, s.logger)
+	p := newPeer(&s.bgpConfig.Global, c, bgp.BGP_FSM_ESTABLISHED, vRibFor(s, c), s.policy, s.logger)
+	if c.RouteServer.Config.RouteServerClient {
+		s.policy.SetPeerPolicy(p.ID(), c.ApplyPolicy)
+	}
 	fm := map[bgp.Family]bgp.BGPAddPathMode{}
 	for _, f := range families {
 		fm[f] = bgp.BGP_ADD_PATH_NONE
